@@ -74,6 +74,18 @@ CHECKS["C09"] = dict(engine="E2", cat="model_checking", design="4/C09",
                      note="definition menu fixed (5 definitions over schema 8.3.0); the 'must accept' direction is judged "
                           "only for definitions with no '#' or exactly one on a value tag")
 
+CHECKS["C11"] = dict(engine="E1", cat="model_checking", design="4/C11",
+                     technique="complete enumeration of (tag, unit, modifier, spelling form, literal) combinations per "
+                               "schema with an independent derivation-set oracle",
+                     text="For every bundled schema every value-taking tag with unit classes is combined with every unit of "
+                          "its classes, every one of the 40 modifiers (permitted or not), 5 spelling forms and 4 (thorough 8) "
+                          "numeric literals, plus every unit of every other class and nonsense units; the oracle derives from "
+                          "the XML the set of readings of each unit text: accepted <=> non-empty; rejected => UNITS_INVALID; "
+                          "accepted with a declared factor => value = number x factors, linear; unrecognised => None, "
+                          "never an exception; bare number => only UNITS_MISSING; prefix-type units before the number.",
+                     note="plural table hand-reviewed (names without entry: singular only); '^' read as 'e' in factors; "
+                          "known finding: unit names containing a blank")
+
 PENDING_REASON = "check not built yet in this revision (planned in DESIGN.md section 4); not claimed until it is"
 
 
